@@ -75,6 +75,8 @@ class Run:
                         stats[k] = max(stats[k], v)
                     else:
                         stats[k] += v
+            for name in s.sched.stats.mutated_by:
+                stats["input_mutated_by:" + name[:60]] += 1
             if s.sched.nontrivial():
                 self.nontrivial = True
             self.steps += s.sched.stats.tasks + s.sched.stats.switches
